@@ -491,16 +491,91 @@ def init_derived(chk, prog, files):
     return n
 
 
+# --------------------------------------------------------------------------------------------------------------- INDEX-SPACE
+_POS_FUNCS = ("nonzero", "flatnonzero", "argwhere", "argmax", "argmin", "argsort", "where")
+_MASK_HINTS = ("isnan", "isfinite", "isinf", "any", "all")
+
+
+def index_space(chk, prog, files):
+    """Positions found in a mask-compressed copy (`c = X[mask]; idx = np.nonzero(f(c))[0]`) index the rows that survived the mask; used to index X itself
+    they point at other rows as soon as the mask drops something in front of them."""
+    n = 0
+    for f in _funcs(prog, files):
+        defs = {}
+        for s_ in _own_nodes(f.node):
+            if isinstance(s_, ast.Assign) and len(s_.targets) == 1 and isinstance(s_.targets[0], ast.Name):
+                defs.setdefault(s_.targets[0].id, []).append(s_.value)
+
+        def boolish(e, depth=0):
+            if isinstance(e, ast.UnaryOp) and isinstance(e.op, ast.Invert):
+                return True
+            if isinstance(e, ast.Compare):
+                return True
+            if isinstance(e, ast.Call) and _last(e) in _MASK_HINTS:
+                return True
+            if isinstance(e, ast.Name) and depth < 2:
+                return any(boolish(d, depth + 1) for d in defs.get(e.id, []))
+            return False
+        comp = {}
+        for nm, vs in defs.items():
+            for v in vs:
+                if isinstance(v, ast.Subscript) and isinstance(v.value, (ast.Name, ast.Attribute)) and not isinstance(v.slice, (ast.Slice, ast.Tuple, ast.Constant)) and boolish(v.slice):
+                    comp[nm] = ast.unparse(v.value)
+        if not comp:
+            continue
+        n += len(comp)
+        for c, base in comp.items():
+            # names derived from c
+            derived = {c}
+            pos = set()
+            changed = True
+            while changed:
+                changed = False
+                for nm, vs in defs.items():
+                    for v in vs:
+                        names = {x.id for x in ast.walk(v) if isinstance(x, ast.Name)}
+                        if nm not in derived and names & derived and nm not in pos:
+                            is_pos = any(isinstance(x, ast.Call) and _last(x) in _POS_FUNCS and (_last(x) != "where" or len(x.args) == 1) and
+                                         any(isinstance(y, ast.Name) and y.id in derived for a in x.args for y in ast.walk(a)) for x in ast.walk(v))
+                            (pos if is_pos else derived).add(nm)
+                            changed = True
+                        if nm not in pos and names & pos:
+                            pos.add(nm)
+                            derived.discard(nm)
+                            changed = True
+                for s_ in _own_nodes(f.node):
+                    if isinstance(s_, ast.For) and isinstance(s_.target, ast.Name) and s_.target.id not in pos and any(isinstance(x, ast.Name) and x.id in pos for x in ast.walk(s_.iter)):
+                        pos.add(s_.target.id)
+                        changed = True
+            if not pos:
+                continue
+            for x in _own_nodes(f.node):
+                if isinstance(x, ast.Subscript) and ast.unparse(x.value) == base and any(isinstance(y, ast.Name) and y.id in pos for y in ast.walk(x.slice)):
+                    chk.finding("INDEX-SPACE", f.module.rel, f.qname, "%s indexed by positions found in %s" % (base, c),
+                                "`%s` is `%s` with the rows of a mask removed; the positions computed from it (%s) count surviving rows, but `%s` applies them to the "
+                                "uncompressed array: every position behind a removed row points at the wrong row" % (c, base, ", ".join(sorted(pos)), ast.unparse(x)[:50]), line=x.lineno)
+                    break
+    chk.counts["INDEX-SPACE.compressed"] = chk.counts.get("INDEX-SPACE.compressed", 0) + n
+    return n
+
+
 LINTS = {
     "ALL-AS-NONNULL": all_as_nonnull, "SHAPE-AMBIGUOUS": shape_ambiguous, "NORM-AXIS": norm_axis, "NULL-TOL": null_tol, "ZERO-PATCH": zero_patch, "NAN-SWALLOW": nan_swallow,
-    "SWALLOW-ROW": swallow_row, "PARAM-CLAMP": param_clamp, "VALIDATOR-WRITES": validator_writes, "NONE-MISMATCH": none_mismatch, "DTYPE-FROM-ARG": dtype_from_arg, "INIT-DERIVED": init_derived,
+    "SWALLOW-ROW": swallow_row, "PARAM-CLAMP": param_clamp, "VALIDATOR-WRITES": validator_writes, "NONE-MISMATCH": none_mismatch, "DTYPE-FROM-ARG": dtype_from_arg, "INIT-DERIVED": init_derived, "INDEX-SPACE": index_space,
 }
 # rule -> owning properties (None: every property on its anchor files).  PARAM-CLAMP and NAN-SWALLOW contradict only properties that promise an answer for every
 # input of a range / a rejection of invalid input.
 OWNERS = {"ALL-AS-NONNULL": None, "SHAPE-AMBIGUOUS": None, "NORM-AXIS": None, "NULL-TOL": None, "ZERO-PATCH": None, "NAN-SWALLOW": {"C10", "C11", "C09", "C01"}, "SWALLOW-ROW": None,
-          "PARAM-CLAMP": {"C14", "C15", "C16", "C17", "C20"}, "VALIDATOR-WRITES": None, "NONE-MISMATCH": None, "DTYPE-FROM-ARG": None, "INIT-DERIVED": {"C14", "C15", "C06", "C19"}}
+          "PARAM-CLAMP": {"C14", "C15", "C16", "C17", "C20"}, "VALIDATOR-WRITES": None, "NONE-MISMATCH": None, "DTYPE-FROM-ARG": None, "INIT-DERIVED": {"C14", "C15", "C06", "C19"}, "INDEX-SPACE": None}
 
 FIXTURE = '''
+def _lint2_index_space(X):
+    keep = ~np.isnan(X).any(axis=1)
+    c = X[keep]
+    hits = np.nonzero(c[:, 0] < 0)[0] + 1
+    for j in hits:
+        X[j] = 0.0
+    return X
 def _lint2_all(acc, mag):
     if np.all(acc) and not mag.all():
         return acc
